@@ -154,10 +154,17 @@ def run(out, tier, seed, gate):
             continue
         outs = ob["outs"]
         mi = 0
+        # Deleting a user drops the client records of the connections logged in as that user while the sockets stay open; what such
+        # a connection answers afterwards (client_not_found on a valid login, ...) is outside Model/Cred.v and outside C10, which
+        # speaks about credentials: the comparison of a history ends at the first request on such a connection.
+        conn_user, name_uid, dead = {}, {"iggy": 1}, set()
         for i, (op, x) in enumerate(zip(t["ops"], t["xs"])):
             if i >= len(outs):
                 break
             o = outs[i]
+            if op.get("c") in dead:
+                stats["ended_at_connection_of_deleted_user"] = stats.get("ended_at_connection_of_deleted_user", 0) + 1
+                break
             if op["op"] == "grep":
                 stats["files_searched"] += o.get("files", 0)
                 stats["bytes_searched"] += o.get("bytes", 0)
@@ -177,6 +184,20 @@ def run(out, tier, seed, gate):
             kinds[op["op"]] = kinds.get(op["op"], 0) + 1
             if op["op"] in ("login", "login_pat"):
                 stats["logins"] += 1
+            if want[0] == 0:
+                k = op["op"]
+                if k == "create_user":
+                    name_uid[op["user"]] = want[1]
+                elif k in ("login", "login_pat"):
+                    conn_user[op["c"]] = want[1]
+                elif k == "logout":
+                    conn_user.pop(op["c"], None)
+                elif k == "restart":
+                    conn_user.clear()
+                    dead.clear()
+                elif k == "delete_user":
+                    uid = name_uid.pop(op["uid"], None)
+                    dead |= {c for c, u in conn_user.items() if u == uid}
             same = (got == want) or (got == (0, "token") and want[0] == 0) or (op["op"] == "restart")
             if not same:
                 stats["disagreements"] += 1
